@@ -250,7 +250,11 @@ def run_unit(u, tier):
     if u['backend'] == 'verus':
         return run_verus_unit(u, tier)
     if u['backend'] == 'kani':
-        return kani_backend.run_unit(u, tier, ROOT, BUILD)
+        res = kani_backend.run_unit(u, tier, ROOT, BUILD)
+        if tier == 'thorough' and u.get('thorough_explorations'):
+            from . import replay
+            replay.run_explorations(res, u['thorough_explorations'], ROOT, BUILD)
+        return res
     raise SystemExit('unknown backend ' + u['backend'])
 
 
